@@ -16,4 +16,4 @@ def replay(ctx, rec):
     return layout_engine.replay(ctx, 'C03', rec)
 
 
-CLAIM = {'text': "C03_labels: for the hand-written Gallina model of the 16 passes (Model/Passes.v, calling the GENERATED criteria/encoders/relocation functions) and EVERY program with unique labels and align N>=1, both modes: a successful run's label table is exact -- each label's value is the total size of the chunks emitted for the source items before it (proved by a generic layout lemma over an arbitrary size-shrinking rule, instantiated for compression, pseudo expansion, alignment; all later passes proved size-preserving). C03_branch/jal/far/cj/cb_lands: the immediate of a transfer evaluated at final offset p with final labels is q-p; pushed through the generated encoder and the Spec decoder (C01/C02 theorems) the transfer lands on q (auipc+jalr: modulo 2^32 via C07). Model tied to asm.assemble by the pipeline correspondence (per-item blobs, labels, constants, errors on generated layouts incl. every branch/jump range edge and 1 MiB gaps); falsifier decodes every transfer of the REAL output with the extracted Spec and recomputes label offsets from the blobs.", 'note': 'Trusted: Coq kernel + vm_compute; py2coq; hand model of the pass loops (tied by differential correspondence only); Spec decoders; parser/lexer are outside this theorem (items come from the real front end; C13). Zero axioms.', 'technique': 'Coq proof (induction over item lists, generic shrinking-pass invariant) over hand model + generated tables; differential correspondence with the real assembler; Spec-decoding falsifier', 'design': '6/C03'}
+CLAIM = {'text': "AT THE TEXT LEVEL (Proofs/Text*.v, sub-agent; lexer model -> parser model -> 16 passes): C03_text_labels -- for every label line of a text that assembles, the reported label table holds exactly the total size of the chunks of the lines in front of it; C03_text_branch_lands / C03_text_jal_lands / C03_text_call_lands / C03_text_cb_lands / C03_text_cj_lands -- beq..bgeu, the ten pseudo branches, jal / j, call / tail and the explicitly written c.j / c.jal / c.beqz / c.bnez to a label line: the chunk(s) of the line decode, 32-bit or compressed, to a transfer over exactly q - p (far pair: p + hi*4096 + lo = q mod 2^32, the jalr reading the register the auipc wrote); found D28 (explicit compressed transfers with a label operand did not land on it; repaired). PASS LEVEL: C03_labels: for the hand-written Gallina model of the 16 passes (Model/Passes.v, calling the GENERATED criteria/encoders/relocation functions) and EVERY program with unique labels and align N>=1, both modes: a successful run's label table is exact -- each label's value is the total size of the chunks emitted for the source items before it (proved by a generic layout lemma over an arbitrary size-shrinking rule, instantiated for compression, pseudo expansion, alignment; all later passes proved size-preserving). C03_branch/jal/far/cj/cb_lands: the immediate of a transfer evaluated at final offset p with final labels is q-p; pushed through the generated encoder and the Spec decoder (C01/C02 theorems) the transfer lands on q (auipc+jalr: modulo 2^32 via C07). Model tied to asm.assemble by the pipeline correspondence (per-item blobs, labels, constants, errors on generated layouts incl. every branch/jump range edge and 1 MiB gaps); falsifier decodes every transfer of the REAL output with the extracted Spec and recomputes label offsets from the blobs.", 'note': 'Trusted: Coq kernel + vm_compute; py2coq; hand model of the pass loops (tied by differential correspondence only); Spec decoders; the text-level theorems go through the lexer and parser models (tied by the front-end correspondence). Zero axioms.', 'technique': 'Coq proof (induction over item lists, generic shrinking-pass invariant) over hand model + generated tables; differential correspondence with the real assembler; Spec-decoding falsifier', 'design': '6/C03'}
